@@ -1,1 +1,746 @@
-(* placeholder *)
+(* Second batch of proofs about the engine model, exported to Props/C03.v C05.v C11.v C20.v. *)
+From MDK Require Import Base.Prelude Base.AMap Mdk.Engine Mdk.EngineSpec Mdk.Authz Mdk.EngineProofs Store.Contract Store.ContractSpec Store.ContractProofs.
+(* Store.Contract reuses some field names of the engine model (msgs, set_msgs, ...): make the engine's visible again *)
+Import Mdk.Engine Mdk.EngineSpec Mdk.EngineProofs.
+
+(* ================================================================ C05: the authorisation whitelist (Authz.v) *)
+Lemma is_update_spec p : is_update p = true <-> p = PUpdate.
+Proof. destruct p; cbn [is_update]; split; intros H; try discriminate H; reflexivity. Qed.
+
+Lemma non_admin_commit_is_pure : forall hp props,
+  authorised false hp props = true ->
+  (forall p, In p props -> fst p = PUpdate /\ snd p = true) /\ (hp = true \/ exists p, In p props /\ fst p = PUpdate).
+Proof.
+  intros hp props H. unfold authorised, pure_self_update in H. cbn [orb] in H.
+  apply andb_true_iff in H. destruct H as [H H3]. apply andb_true_iff in H. destruct H as [H1 H2].
+  rewrite forallb_forall in H2. rewrite forallb_forall in H3. split.
+  - intros p Hp. pose proof (H2 p Hp) as Hu. split; [apply is_update_spec; exact Hu|].
+    apply H3. apply filter_In. split; [exact Hp|exact Hu].
+  - apply orb_true_iff in H1. destruct H1 as [H1|H1]; [left; exact H1|right].
+    apply existsb_exists in H1. destruct H1 as (p & Hp & Hu). exists p. split; [exact Hp|apply is_update_spec; exact Hu].
+Qed.
+
+Lemma non_admin_commit_changes_nothing : forall hp props,
+  authorised false hp props = true -> changes_group props = false.
+Proof.
+  intros hp props H. destruct (non_admin_commit_is_pure hp props H) as [Hall _].
+  destruct (changes_group props) eqn:E; [|reflexivity]. unfold changes_group in E.
+  apply existsb_exists in E. destruct E as (p & Hp & Hc). destruct (Hall p Hp) as [Hu _]. rewrite Hu in Hc. discriminate Hc.
+Qed.
+
+Lemma empty_commit_refused : authorised false false [] = false.
+Proof. reflexivity. Qed.
+
+(* ================================================================ C05: the engine *)
+Lemma gstate_ens c : gstate (ens c) = gstate c.
+Proof. unfold gstate, ens. cbn [set_core kc]. rewrite es_cur, es_epoch, es_data. reflexivity. Qed.
+
+Lemma gstate_late c e r : gstate (fst (late c e r)) = gstate c.
+Proof.
+  unfold late. destruct (dget (e_id e) (dedup c)) as [d|]; [|reflexivity].
+  destruct (d_state d =? PS_COMMIT); reflexivity.
+Qed.
+
+Lemma gstate_upd_last c k a b : gstate (set_core c (upd_last k a b)) = gstate (set_core c k).
+Proof.
+  unfold gstate. cbn [set_core kc]. destruct (upd_last_fields k a b) as (E1 & E2 & _ & _ & _ & _ & _ & _ & E9 & _).
+  rewrite E1, E2, E9. reflexivity.
+Qed.
+
+Lemma gstate_own_here c e : e_kind e <> 0 -> gstate (fst (own_here c e)) = gstate c.
+Proof.
+  intros K0. unfold own_here. destruct (N.eqb_spec (e_kind e) 0) as [E|_]; [contradiction|].
+  destruct (dget (e_id e) (dedup c)) as [d|]; [|reflexivity].
+  destruct ((d_state d =? PS_CREATED) || (d_state d =? PS_RETRY)).
+  - destruct (d_msg d) as [m|]; [|reflexivity]. destruct (dget m (msgs c)); reflexivity.
+  - destruct (d_state d =? PS_COMMIT); reflexivity.
+Qed.
+
+Lemma gstate_app_here c e r : gstate (fst (app_here c e r)) = gstate c.
+Proof.
+  unfold app_here. destruct (negb _ || existsb (N.eqb (e_msg e)) (k_seen (kc c))); [reflexivity|].
+  cbn [fst]. rewrite gstate_upd_last. reflexivity.
+Qed.
+
+Lemma gstate_leave_here c e r : gstate (fst (leave_here c e r)) = gstate c.
+Proof.
+  unfold leave_here. destruct (existsb (N.eqb (100000 + e_id e)) (k_seen (kc c))); [reflexivity|].
+  destruct (is_admin c && _); [reflexivity|]. cbn [fst]. destruct (is_admin c); reflexivity.
+Qed.
+
+Lemma gstate_commit_here_unauth c e r : e_auth e = false -> gstate (fst (commit_here c e r)) = gstate c.
+Proof.
+  intros Ha. unfold commit_here. destruct (negb (forallb _ (e_refs e))); [reflexivity|].
+  rewrite Ha. reflexivity.
+Qed.
+
+(* events that cannot move the group state where they are handled *)
+Definition harmless_here (c : client) (e : event) : Prop :=
+  (e_kind e = 1 \/ e_kind e = 2) \/ (e_author e <> me c /\ e_auth e = false).
+
+Lemma gstate_here c e r : harmless_here c e -> gstate (fst (here c e r)) = gstate c.
+Proof.
+  intros Hh. unfold here.
+  destruct (N.eqb_spec (e_author e) (me c)) as [Ea|Ea].
+  - destruct Hh as [K|[Hne _]]; [apply gstate_own_here; lia|contradiction].
+  - destruct (N.eqb_spec (e_kind e) 1) as [K1|K1]; [apply gstate_app_here|].
+    destruct (N.eqb_spec (e_kind e) 2) as [K2|K2]; [apply gstate_leave_here|].
+    destruct Hh as [K|[_ Hau]]; [lia|apply gstate_commit_here_unauth; exact Hau].
+Qed.
+
+Lemma gstate_process f c e :
+  e_kind e = 3 \/ harmless_here c e ->
+  rollbacks (fst (process f c e)) = rollbacks c -> gstate (fst (process f c e)) = gstate c.
+Proof.
+  intros Hh. rewrite process_unfold.
+  destruct (blockedb c e); [reflexivity|].
+  destruct ((e_kind e =? 3) && (e_bad e <? 2)); [reflexivity|].
+  destruct ((e_kind e =? 3) && (e_bad e =? 2)); [reflexivity|].
+  destruct (negb (k_active (kc c))); [reflexivity|].
+  cbv zeta.
+  destruct (N.eqb_spec (e_kind e) 3) as [K3|K3]; [intros _; cbn [orb fst]; exact (gstate_ens c)|].
+  cbn [orb].
+  destruct (negb (outer_opens (kc (ens c)) (e_state e))); [intros _; exact (gstate_ens c)|].
+  assert (harmless_here (ens c) e) as Hh' by (destruct Hh as [K|Hh]; [contradiction|exact Hh]).
+  destruct (wrong_epoch (kc (ens c)) e).
+  - destruct (is_better (ens c) (e_epoch e) (e_ts e) (e_key e)).
+    + destruct (find_snap (e_epoch e) (queue (ens c))) as [s|]; [|intros _; exact (gstate_ens c)].
+      destruct f as [|f']; [intros _; exact (gstate_ens c)|].
+      intros Hrb. exfalso.
+      pose proof (process_rb f' (rollback (ens c) (e_epoch e) s) e) as H.
+      assert (rollbacks (rollback (ens c) (e_epoch e) s) = rollbacks c + 1) as E by reflexivity. lia.
+    + intros _. rewrite gstate_late. apply gstate_ens.
+  - intros _. rewrite (gstate_here _ _ _ Hh'). apply gstate_ens.
+Qed.
+
+Lemma unauthorised_commit_frame : forall c e,
+  e_kind e = 0 -> e_author e <> me c -> e_auth e = false ->
+  rollbacks (fst (deliver c e)) = rollbacks c -> gstate (fst (deliver c e)) = gstate c.
+Proof. intros c e _ Hne Hau. apply gstate_process. right. right. split; [exact Hne|exact Hau]. Qed.
+
+Lemma proposal_alone_no_effect : forall c e,
+  e_kind e = 2 -> rollbacks (fst (deliver c e)) = rollbacks c -> gstate (fst (deliver c e)) = gstate c.
+Proof. intros c e K. apply gstate_process. right. left. right. exact K. Qed.
+
+Lemma message_no_effect : forall c e,
+  e_kind e = 1 \/ e_kind e = 3 -> rollbacks (fst (deliver c e)) = rollbacks c -> gstate (fst (deliver c e)) = gstate c.
+Proof. intros c e [K|K]; apply gstate_process; [right; left; left; exact K|left; exact K]. Qed.
+
+Lemma blockedb_none c e : dget (e_id e) (dedup c) = None -> blockedb c e = false.
+Proof. unfold blockedb. intros ->. reflexivity. Qed.
+
+Lemma applied_commit_fuel f : forall c e,
+  e_kind e = 0 -> e_author e <> me c -> dget (e_id e) (dedup c) = None ->
+  snd (process f c e) = RCommit -> e_auth e = true.
+Proof.
+  induction f as [|f IH]; intros c e K0 Hne Hd; rewrite process_unfold; rewrite (blockedb_none _ _ Hd).
+  all: destruct ((e_kind e =? 3) && (e_bad e <? 2)); [discriminate|].
+  all: destruct ((e_kind e =? 3) && (e_bad e =? 2)); [discriminate|].
+  all: destruct (negb (k_active (kc c))); [discriminate|].
+  all: cbv zeta.
+  all: destruct ((e_kind e =? 3) || negb (outer_opens (kc (ens c)) (e_state e))); [discriminate|].
+  all: assert (Hhere : snd (here (ens c) e (k_rec_epoch (kc c))) = RCommit -> e_auth e = true).
+  1,3: unfold here; change (me (ens c)) with (me c);
+       (destruct (N.eqb_spec (e_author e) (me c)) as [E|_]; [contradiction|]);
+       rewrite K0; change (0 =? 1) with false; change (0 =? 2) with false; cbv iota;
+       unfold commit_here; (destruct (negb (forallb _ (e_refs e))); [discriminate|]);
+       (destruct (e_auth e); [reflexivity|discriminate]).
+  all: destruct (wrong_epoch (kc (ens c)) e); [|exact Hhere].
+  all: assert (Hlate : snd (late (ens c) e (k_rec_epoch (kc c))) = RCommit -> e_auth e = true)
+         by (unfold late; change (dedup (ens c)) with (dedup c); rewrite Hd; discriminate).
+  all: destruct (is_better (ens c) (e_epoch e) (e_ts e) (e_key e)); [|exact Hlate].
+  all: destruct (find_snap (e_epoch e) (queue (ens c))) as [s|] eqn:Es; [|discriminate].
+  - discriminate.
+  - apply IH; [exact K0|exact Hne|]. rewrite dget_rollback. change (dedup (ens c)) with (dedup c). rewrite Hd. reflexivity.
+Qed.
+
+Lemma applied_commit_authorised : forall c e,
+  e_kind e = 0 -> e_author e <> me c -> aget N.eqb (e_id e) (dedup c) = None ->
+  snd (deliver c e) = RCommit -> e_auth e = true.
+Proof. intros c e. apply applied_commit_fuel. Qed.
+
+(* ================================================================ C20: the snapshot queue stays bounded *)
+Lemma drop_front_length {A} n : forall (l : list A), length (drop_front n l) = (length l - n)%nat.
+Proof.
+  induction n as [|n IH]; intros l; cbn [drop_front]; [lia|].
+  destruct l as [|x r]; cbn [length]; [reflexivity|]. rewrite IH. lia.
+Qed.
+
+Lemma prune_len ret q : lenN (prune ret q) <= ret.
+Proof.
+  unfold prune. destruct (N.leb_spec (lenN q) ret) as [L|L]; [exact L|].
+  unfold lenN in *. rewrite drop_front_length. lia.
+Qed.
+
+Lemma take_until_len ep q : lenN (take_until ep q) <= lenN q.
+Proof.
+  induction q as [|s r IH]; cbn [take_until]; [lia|].
+  destruct (sn_epoch s =? ep); rewrite ?lenN_cons, ?lenN_nil; lia.
+Qed.
+
+(* the queue has at most r entries and the retention setting is r *)
+Definition QR (r : N) (c : client) : Prop := retention c = r /\ lenN (queue c) <= r.
+
+Lemma QR_same r c c' : retention c' = retention c -> queue c' = queue c -> QR r c -> QR r c'.
+Proof. unfold QR. intros -> ->. auto. Qed.
+
+Lemma QR_apply_commit r c e cm : QR r c -> QR r (fst (apply_commit c e cm)).
+Proof.
+  intros [Hr _].
+  assert (QR r (take_snapshot c e)) as H.
+  { split; [exact Hr|]. cbn [take_snapshot set_queue queue]. rewrite Hr. apply prune_len. }
+  unfold apply_commit. destruct (evicted_by c (snd cm)); exact H.
+Qed.
+
+Lemma QR_rollback r c ep s : QR r c -> QR r (rollback c ep s).
+Proof.
+  intros [Hr Hq]. split; [exact Hr|].
+  change (queue (rollback c ep s)) with (take_until ep (queue c)).
+  pose proof (take_until_len ep (queue c)). lia.
+Qed.
+
+Lemma QR_late r c e x : QR r c -> QR r (fst (late c e x)).
+Proof.
+  intros H. unfold late. destruct (dget (e_id e) (dedup c)) as [d|]; [|exact H].
+  destruct (d_state d =? PS_COMMIT); exact H.
+Qed.
+
+Lemma QR_here r c e x : QR r c -> QR r (fst (here c e x)).
+Proof.
+  intros H. unfold here.
+  destruct (e_author e =? me c).
+  - unfold own_here.
+    destruct (if e_kind e =? 0 then k_pending (kc c) else None) as [cm|]; [apply QR_apply_commit; exact H|].
+    destruct (dget (e_id e) (dedup c)) as [d|]; [|exact H].
+    destruct ((d_state d =? PS_CREATED) || (d_state d =? PS_RETRY)).
+    + destruct (d_msg d) as [m|]; [|exact H]. destruct (dget m (msgs c)); exact H.
+    + destruct (d_state d =? PS_COMMIT); exact H.
+  - destruct (e_kind e =? 1).
+    + unfold app_here. destruct (negb _ || existsb (N.eqb (e_msg e)) (k_seen (kc c))); exact H.
+    + destruct (e_kind e =? 2).
+      * unfold leave_here. destruct (existsb (N.eqb (100000 + e_id e)) (k_seen (kc c))); [exact H|].
+        destruct (is_admin c && _); exact H.
+      * unfold commit_here. destruct (negb (forallb _ (e_refs e))); [exact H|].
+        destruct (negb (e_auth e)); [exact H|apply QR_apply_commit; exact H].
+Qed.
+
+Lemma QR_process r fuel : forall c e, QR r c -> QR r (fst (process fuel c e)).
+Proof.
+  induction fuel as [|f IH]; intros c e H; rewrite process_unfold.
+  all: destruct (blockedb c e); [exact H|].
+  all: destruct ((e_kind e =? 3) && (e_bad e <? 2)); [exact H|].
+  all: destruct ((e_kind e =? 3) && (e_bad e =? 2)); [exact H|].
+  all: destruct (negb (k_active (kc c))); [exact H|].
+  all: cbv zeta; assert (QR r (ens c)) as H1 by exact H.
+  all: destruct ((e_kind e =? 3) || negb (outer_opens (kc (ens c)) (e_state e))); [exact H1|].
+  all: destruct (wrong_epoch (kc (ens c)) e); [|apply QR_here; exact H1].
+  all: destruct (is_better (ens c) (e_epoch e) (e_ts e) (e_key e)); [|apply QR_late; exact H1].
+  all: destruct (find_snap (e_epoch e) (queue (ens c))) as [s|] eqn:Es; [|exact H1].
+  - exact H1.
+  - apply IH. apply QR_rollback. exact H1.
+Qed.
+
+Lemma QR_estep r c o : QR r c -> QR r (estep c o).
+Proof.
+  intros H. destruct o as [e|e| | |e|e k|e|]; cbn [estep].
+  - apply QR_process. exact H.
+  - exact H.
+  - unfold merge_pending. destruct (k_pending (kc c)); exact H.
+  - exact H.
+  - exact H.
+  - exact H.
+  - exact H.
+  - destruct H as [Hr Hq]. split; [exact Hr|]. cbn [restart set_queue queue]. unfold lenN in *. rewrite map_length. exact Hq.
+Qed.
+
+Lemma queue_bounded_step : forall c o, lenN (queue c) <= retention c -> lenN (queue (estep c o)) <= retention (estep c o).
+Proof.
+  intros c o H. destruct (QR_estep (retention c) c o (conj eq_refl H)) as [Hr Hq]. rewrite Hr. exact Hq.
+Qed.
+
+Lemma QR_erun r ops : forall c, QR r c -> QR r (erun c ops).
+Proof.
+  induction ops as [|o ops IH]; intros c H; [exact H|].
+  unfold erun. cbn [fold_left]. apply IH. apply QR_estep. exact H.
+Qed.
+
+Lemma queue_bounded : forall i a r ops, lenN (queue (erun (init_client i a r) ops)) <= r.
+Proof.
+  intros i a r ops. apply (QR_erun r ops (init_client i a r)).
+  split; [reflexivity|]. cbn [init_client queue]. rewrite lenN_nil. lia.
+Qed.
+
+(* ---- the queue stays well formed along every run *)
+Definition zero_ts (s : snap) : snap := mkSnap (sn_epoch s) (sn_key s) 0 (sn_core s).
+
+Lemma restart_queue c : queue (restart c) = map zero_ts (queue c).
+Proof. reflexivity. Qed.
+
+Lemma sorted_map_zero q : snaps_sorted q -> snaps_sorted (map zero_ts q).
+Proof.
+  induction q as [|s r IH]; cbn [map snaps_sorted]; [auto|].
+  intros [Ha Hr]. split; [|exact (IH Hr)].
+  rewrite Forall_map. exact Ha.
+Qed.
+
+Lemma queue_wf_restart c : queue_wf c -> queue_wf (restart c).
+Proof.
+  intros [H1 H2]. unfold queue_wf. rewrite restart_queue. change (kc (restart c)) with (kc c). split.
+  - rewrite Forall_map. exact H1.
+  - apply sorted_map_zero. exact H2.
+Qed.
+
+Lemma queue_wf_estep c o : queue_wf c -> queue_wf (estep c o).
+Proof.
+  intros H. destruct o as [e|e| | |e|e k|e|]; cbn [estep].
+  - apply queue_wf_deliver. exact H.
+  - apply (queue_wf_api c e H).
+  - apply (queue_wf_api c (mkEvent 0 0 0 0 0 0 0 false 0 0 [] [] 0) H).
+  - apply (queue_wf_api c (mkEvent 0 0 0 0 0 0 0 false 0 0 [] [] 0) H).
+  - apply (queue_wf_api c e H).
+  - apply queue_wf_sent_as. exact H.
+  - apply (queue_wf_api c e H).
+  - apply queue_wf_restart. exact H.
+Qed.
+
+Lemma queue_wf_erun ops : forall c, queue_wf c -> queue_wf (erun c ops).
+Proof.
+  induction ops as [|o ops IH]; intros c H; [exact H|].
+  unfold erun. cbn [fold_left]. apply IH. apply queue_wf_estep. exact H.
+Qed.
+
+Lemma queue_recent : forall i a r ops, queue_wf (erun (init_client i a r) ops).
+Proof. intros i a r ops. apply queue_wf_erun. apply queue_wf_init. Qed.
+
+Lemma rollback_discards_superseded : forall c ep s x, queue_wf c -> find_snap ep (queue c) = Some s ->
+  In x (queue (rollback c ep s)) -> sn_epoch x < ep.
+Proof.
+  intros c ep s x [_ Hs] Hf Hx.
+  change (queue (rollback c ep s)) with (take_until ep (queue c)) in Hx.
+  pose proof (take_until_below ep (queue c) s Hs Hf) as Hb. rewrite Forall_forall in Hb.
+  destruct (find_snap_In _ _ _ Hf) as [_ <-]. exact (Hb x Hx).
+Qed.
+
+(* ---- TTL pruning at the storage contract *)
+Lemma ttl_prune_exact : forall s min_ts k v,
+  NoDup (map fst (snaps s)) ->
+  (aget pair_eqb k (snaps (fst (step s (Prune min_ts)))) = Some v <-> aget pair_eqb k (snaps s) = Some v /\ min_ts <= fst v) /\
+  live (fst (step s (Prune min_ts))) = live s.
+Proof.
+  intros s min_ts k v Hnd. split; [|reflexivity].
+  rewrite step_snaps. split.
+  - intros H. apply (aget_In pair_eqb pair_eqb_spec) in H. apply filter_In in H. destruct H as [Hin Hf].
+    cbn [snd fst] in Hf. split; [|lia]. apply (In_aget pair_eqb pair_eqb_spec); assumption.
+  - intros [Hg Hle]. apply (aget_filter_keep pair_eqb pair_eqb_spec); [exact Hg|]. cbn [snd fst]. lia.
+Qed.
+
+(* ================================================================ C11: restart *)
+Lemma restart_proj : forall c, proj (restart c) = proj c.
+Proof. intros c. unfold proj. rewrite restart_queue, map_length. reflexivity. Qed.
+
+Lemma zero_ts_idem s : zero_ts (zero_ts s) = zero_ts s.
+Proof. reflexivity. Qed.
+
+Lemma map_zero_idem q : map zero_ts (map zero_ts q) = map zero_ts q.
+Proof. rewrite map_map. apply map_ext. intros s. reflexivity. Qed.
+
+Lemma restart_idempotent : forall c, restart (restart c) = restart c.
+Proof.
+  intros c. unfold restart at 1. rewrite restart_queue.
+  change (map (fun s => mkSnap (sn_epoch s) (sn_key s) 0 (sn_core s)) (map zero_ts (queue c))) with (map zero_ts (map zero_ts (queue c))).
+  rewrite map_zero_idem. reflexivity.
+Qed.
+
+(* two clients that differ only in the timestamps of their queued snapshots *)
+Lemma restart_eq c c' :
+  me c = me c' -> is_admin c = is_admin c' -> retention c = retention c' -> kc c = kc c' -> dedup c = dedup c' ->
+  msgs c = msgs c' -> rollbacks c = rollbacks c' -> map zero_ts (queue c) = map zero_ts (queue c') ->
+  restart c = restart c'.
+Proof.
+  destruct c as [a1 a2 a3 a4 a5 a6 a7 a8], c' as [b1 b2 b3 b4 b5 b6 b7 b8].
+  cbn [me is_admin retention kc dedup msgs rollbacks queue].
+  intros -> -> -> -> -> -> -> H. unfold restart, set_queue. cbn [me is_admin retention kc dedup msgs rollbacks queue].
+  f_equal. exact H.
+Qed.
+
+Lemma find_snap_zero ep q : find_snap ep (map zero_ts q) = option_map zero_ts (find_snap ep q).
+Proof.
+  unfold find_snap. induction q as [|s r IH]; cbn [map find option_map]; [reflexivity|].
+  change (sn_epoch (zero_ts s)) with (sn_epoch s). destruct (sn_epoch s =? ep); [reflexivity|exact IH].
+Qed.
+
+Lemma is_better_restart c ep ts key : is_better (restart c) ep ts key = false.
+Proof.
+  unfold is_better. rewrite restart_queue, find_snap_zero.
+  destruct (find_snap ep (queue c)) as [s|]; reflexivity.
+Qed.
+
+Lemma map_drop_front {A B} (f : A -> B) n : forall l, map f (drop_front n l) = drop_front n (map f l).
+Proof.
+  induction n as [|n IH]; intros l; cbn [drop_front]; [reflexivity|].
+  destruct l as [|x r]; cbn [map]; [reflexivity|apply IH].
+Qed.
+
+Lemma map_prune f ret q : map f (prune ret q) = prune ret (map f q).
+Proof.
+  unfold prune. unfold lenN. rewrite map_length. destruct (N.of_nat (length q) <=? ret); [reflexivity|apply map_drop_front].
+Qed.
+
+Lemma take_snapshot_restart c e :
+  map zero_ts (queue (take_snapshot (restart c) e)) = map zero_ts (queue (take_snapshot c e)).
+Proof.
+  cbn [take_snapshot set_queue queue]. change (retention (restart c)) with (retention c). change (kc (restart c)) with (kc c).
+  rewrite restart_queue. rewrite !map_prune, !map_app, map_zero_idem. reflexivity.
+Qed.
+
+Lemma apply_commit_restart c e cm :
+  snd (apply_commit (restart c) e cm) = snd (apply_commit c e cm) /\
+  restart (fst (apply_commit (restart c) e cm)) = restart (fst (apply_commit c e cm)).
+Proof.
+  unfold apply_commit. change (evicted_by (restart c) (snd cm)) with (evicted_by c (snd cm)).
+  destruct (evicted_by c (snd cm)); (split; [reflexivity|]); cbn [fst];
+    (apply restart_eq; try reflexivity; exact (take_snapshot_restart c e)).
+Qed.
+
+Lemma late_restart c e r : late (restart c) e r = (restart (fst (late c e r)), snd (late c e r)).
+Proof.
+  unfold late. change (dedup (restart c)) with (dedup c).
+  destruct (dget (e_id e) (dedup c)) as [d|]; [|reflexivity].
+  destruct (d_state d =? PS_COMMIT); reflexivity.
+Qed.
+
+Lemma sim_same (x y : client * rk) : x = (restart (fst y), snd y) -> snd x = snd y /\ restart (fst x) = restart (fst y).
+Proof. intros ->. cbn [fst snd]. split; [reflexivity|apply restart_idempotent]. Qed.
+
+Lemma here_restart c e r :
+  snd (here (restart c) e r) = snd (here c e r) /\
+  restart (fst (here (restart c) e r)) = restart (fst (here c e r)).
+Proof.
+  unfold here. change (me (restart c)) with (me c).
+  destruct (e_author e =? me c).
+  - unfold own_here. change (kc (restart c)) with (kc c). change (dedup (restart c)) with (dedup c). change (msgs (restart c)) with (msgs c).
+    destruct (if e_kind e =? 0 then k_pending (kc c) else None) as [cm|]; [apply apply_commit_restart|].
+    destruct (dget (e_id e) (dedup c)) as [d|]; [|apply sim_same; reflexivity].
+    destruct ((d_state d =? PS_CREATED) || (d_state d =? PS_RETRY)).
+    + destruct (d_msg d) as [m|]; [|apply sim_same; reflexivity]. destruct (dget m (msgs c)); apply sim_same; reflexivity.
+    + destruct (d_state d =? PS_COMMIT); apply sim_same; reflexivity.
+  - destruct (e_kind e =? 1).
+    + unfold app_here. change (kc (restart c)) with (kc c).
+      destruct (negb _ || existsb (N.eqb (e_msg e)) (k_seen (kc c))); apply sim_same; reflexivity.
+    + destruct (e_kind e =? 2).
+      * unfold leave_here. change (kc (restart c)) with (kc c). change (is_admin (restart c)) with (is_admin c).
+        destruct (existsb (N.eqb (100000 + e_id e)) (k_seen (kc c))); [apply sim_same; reflexivity|].
+        destruct (is_admin c && _); [apply sim_same; reflexivity|].
+        destruct (is_admin c); apply sim_same; reflexivity.
+      * unfold commit_here. change (kc (restart c)) with (kc c).
+        destruct (negb (forallb _ (e_refs e))); [apply sim_same; reflexivity|].
+        destruct (negb (e_auth e)); [apply sim_same; reflexivity|apply apply_commit_restart].
+Qed.
+
+Lemma restart_simulation_fuel f c e :
+  (forall s, In s (queue c) -> is_better c (sn_epoch s) (e_ts e) (e_key e) = false) ->
+  snd (process f (restart c) e) = snd (process f c e) /\
+  restart (fst (process f (restart c) e)) = restart (fst (process f c e)).
+Proof.
+  intros Hnb.
+  assert (is_better (ens c) (e_epoch e) (e_ts e) (e_key e) = false) as Hb.
+  { destruct (find_snap (e_epoch e) (queue c)) as [s|] eqn:Ef.
+    - destruct (find_snap_In _ _ _ Ef) as [Hin Hep]. specialize (Hnb s Hin). rewrite Hep in Hnb.
+      unfold is_better in *. exact Hnb.
+    - unfold is_better. change (queue (ens c)) with (queue c). rewrite Ef. reflexivity. }
+  rewrite !process_unfold.
+  change (blockedb (restart c) e) with (blockedb c e).
+  destruct (blockedb c e); [apply sim_same; reflexivity|].
+  destruct ((e_kind e =? 3) && (e_bad e <? 2)); [apply sim_same; reflexivity|].
+  destruct ((e_kind e =? 3) && (e_bad e =? 2)); [apply sim_same; reflexivity|].
+  change (kc (restart c)) with (kc c).
+  destruct (negb (k_active (kc c))); [apply sim_same; reflexivity|].
+  cbv zeta. change (ens (restart c)) with (restart (ens c)). change (kc (restart (ens c))) with (kc (ens c)).
+  destruct ((e_kind e =? 3) || negb (outer_opens (kc (ens c)) (e_state e))); [apply sim_same; reflexivity|].
+  rewrite is_better_restart, Hb.
+  destruct (wrong_epoch (kc (ens c)) e).
+  - apply sim_same. apply late_restart.
+  - apply here_restart.
+Qed.
+
+Lemma restart_simulation : forall c e,
+  (forall s, In s (queue c) -> is_better c (sn_epoch s) (e_ts e) (e_key e) = false) ->
+  snd (deliver (restart c) e) = snd (deliver c e) /\
+  forget_ts (fst (deliver (restart c) e)) = forget_ts (fst (deliver c e)).
+Proof. intros c e. apply restart_simulation_fuel. Qed.
+
+Lemma race_after_restart_refuted : exists c worse better,
+  fork_ready c /\
+  k_cur (kc (deliver_all c [worse; better])) = e_id better + 1 /\
+  k_cur (kc (fst (deliver (restart (fst (deliver c worse))) better))) = e_id worse + 1.
+Proof.
+  exists w_c0, w_A, w_B. split; [apply fork_ready_init; lia|]. split; vm_compute; reflexivity.
+Qed.
+
+(* ================================================================ C03: secrets only of visited states *)
+(* the MLS state of a core and every state whose secrets it holds *)
+Definition core_states (k : core) : list N := k_cur k :: held_states k.
+
+(* every state known to the client - live or in a queued snapshot - is in L *)
+Definition Held (L : list N) (c : client) : Prop :=
+  incl (core_states (kc c)) L /\ forall s, In s (queue c) -> incl (core_states (sn_core s)) L.
+
+Lemma Held_mono L L' c : incl L L' -> Held L c -> Held L' c.
+Proof.
+  intros HL [H1 H2]. split; [exact (incl_tran H1 HL)|]. intros s Hs. exact (incl_tran (H2 s Hs) HL).
+Qed.
+
+Lemma Held_weaken L c x : Held L c -> Held (x :: L) c.
+Proof. apply Held_mono. apply incl_tl. apply incl_refl. Qed.
+
+Lemma Held_core L c k : incl (core_states k) L -> Held L c -> Held L (set_core c k).
+Proof. intros Hk [_ H2]. split; [exact Hk|exact H2]. Qed.
+
+Lemma Held_core_same L c k : core_states k = core_states (kc c) -> Held L c -> Held L (set_core c k).
+Proof. intros E H. apply Held_core; [|exact H]. rewrite E. exact (proj1 H). Qed.
+
+Lemma aset_In {V} k (v : V) m x : In x (aset N.eqb k v m) -> x = (k, v) \/ In x m.
+Proof.
+  induction m as [|[k' v'] r IH]; cbn [aset In].
+  - intros [H|[]]. left. symmetry. exact H.
+  - destruct (k =? k'); cbn [In].
+    + intros [H|H]; [left; symmetry; exact H|right; right; exact H].
+    + intros [H|H]; [right; left; exact H|]. destruct (IH H) as [E|E]; [left; exact E|right; right; exact E].
+Qed.
+
+Lemma es_states k : incl (core_states (ensure_secret k)) (core_states k).
+Proof.
+  unfold ensure_secret. destruct (dget (k_epoch k) (k_secrets k)); [apply incl_refl|].
+  unfold core_states, held_states. cbn [with_secrets k_cur k_secrets k_past].
+  intros x [Hx|Hx]; [left; exact Hx|]. apply in_app_or in Hx. destruct Hx as [Hx|Hx].
+  - apply in_map_iff in Hx. destruct Hx as (p & Hp & Hin). apply aset_In in Hin. destruct Hin as [->|Hin].
+    + left. exact Hp.
+    + right. apply in_or_app. left. apply in_map_iff. exists p. split; assumption.
+  - right. apply in_or_app. right. exact Hx.
+Qed.
+
+Lemma upd_last_states k a b : core_states (upd_last k a b) = core_states k.
+Proof.
+  unfold core_states, held_states. destruct (upd_last_fields k a b) as (E1 & _ & _ & _ & _ & _ & E7 & E8 & _).
+  rewrite E1, E7, E8. reflexivity.
+Qed.
+
+Lemma firstn_In {A} n : forall (l : list A) x, In x (firstn n l) -> In x l.
+Proof.
+  induction n as [|n IH]; intros l x; cbn [firstn]; [intros []|].
+  destruct l as [|y r]; [intros []|]. intros [H|H]; [left; exact H|right; exact (IH r x H)].
+Qed.
+
+Lemma advance_states k cm save ev :
+  incl (core_states (advance k cm save ev)) (k_cur (advance k cm save ev) :: core_states k).
+Proof.
+  destruct cm as [[id data] rm]. unfold advance.
+  set (k1 := mkCore (id + 1) (k_epoch k + 1) (if ev then k_rec_epoch k else k_epoch k + 1) (if ev then false else k_active k) None
+                    (if ev then k_props k else []) (k_secrets k) (push_past k)
+                    (if ev then k_data k else if data =? 0 then k_data k else data) (k_last k) (k_seen k)).
+  assert (incl (core_states k1) (k_cur k1 :: core_states k)) as H1.
+  { unfold core_states, held_states. cbn [k1 k_cur k_secrets k_past].
+    intros x [Hx|Hx]; [left; exact Hx|]. right. apply in_app_or in Hx. destruct Hx as [Hx|Hx].
+    - right. apply in_or_app. left. exact Hx.
+    - apply in_map_iff in Hx. destruct Hx as (p & Hp & Hin). unfold push_past in Hin. apply firstn_In in Hin.
+      destruct Hin as [<-|Hin]; [left; exact Hp|].
+      right. apply in_or_app. right. apply in_map_iff. exists p. split; assumption. }
+  destruct (save && negb ev); [|exact H1].
+  rewrite es_cur. exact (incl_tran (es_states k1) H1).
+Qed.
+
+Lemma Held_ens L c : Held L c -> Held L (ens c).
+Proof. intros H. apply Held_core; [|exact H]. exact (incl_tran (es_states _) (proj1 H)). Qed.
+
+Lemma Held_take_snapshot L c e : Held L c -> Held L (take_snapshot c e).
+Proof.
+  intros [H1 H2]. split; [exact H1|]. cbn [take_snapshot set_queue queue]. intros s Hs.
+  assert (In s (queue c ++ [mkSnap (k_epoch (kc c)) (e_key e) (e_ts e) (kc c)])) as Hs'.
+  { unfold prune in Hs. destruct (lenN _ <=? retention c); [exact Hs|exact (drop_front_In _ _ _ Hs)]. }
+  apply in_app_or in Hs'. destruct Hs' as [Hq|[<-|[]]]; [exact (H2 s Hq)|exact H1].
+Qed.
+
+Lemma take_until_In ep q x : In x (take_until ep q) -> In x q.
+Proof.
+  induction q as [|s r IH]; cbn [take_until]; [intros []|].
+  destruct (sn_epoch s =? ep); [intros []|]. intros [H|H]; [left; exact H|right; exact (IH H)].
+Qed.
+
+Lemma Held_rollback L c ep s : Held L c -> In s (queue c) -> Held L (rollback c ep s).
+Proof.
+  intros [H1 H2] Hs. split.
+  - change (kc (rollback c ep s)) with (sn_core s). exact (H2 s Hs).
+  - change (queue (rollback c ep s)) with (take_until ep (queue c)). intros x Hx. apply H2. exact (take_until_In _ _ _ Hx).
+Qed.
+
+Lemma Held_advance L c c1 cm save ev :
+  kc c1 = kc c -> Held L c1 ->
+  Held (k_cur (advance (kc c) cm save ev) :: L) (set_core c1 (advance (kc c) cm save ev)).
+Proof.
+  intros E H. apply Held_core; [|apply Held_weaken; exact H].
+  eapply incl_tran; [apply advance_states|]. apply incl_cons; [left; reflexivity|].
+  apply incl_tl. rewrite <- E. exact (proj1 H).
+Qed.
+
+(* the goal of a step: everything is in L, or is the state just entered *)
+Definition Grown (L : list N) (c' : client) : Prop := Held (k_cur (kc c') :: L) c'.
+
+Lemma Held_Grown L c : Held L c -> Grown L c.
+Proof. apply Held_weaken. Qed.
+
+Lemma Grown_apply_commit L c e cm : Held L c -> Grown L (fst (apply_commit c e cm)).
+Proof.
+  intros H. pose proof (Held_take_snapshot L c e H) as H1.
+  pose proof (Held_advance L c (take_snapshot c e) cm true (evicted_by c (snd cm)) eq_refl H1) as H2.
+  unfold apply_commit. destruct (evicted_by c (snd cm)); exact H2.
+Qed.
+
+Lemma Held_late L c e r : Held L c -> Held L (fst (late c e r)).
+Proof.
+  intros H. unfold late. destruct (dget (e_id e) (dedup c)) as [d|]; [|exact H].
+  destruct (d_state d =? PS_COMMIT); exact H.
+Qed.
+
+Lemma Grown_here L c e r : Held L c -> Grown L (fst (here c e r)).
+Proof.
+  intros H. unfold here.
+  destruct (e_author e =? me c).
+  - unfold own_here.
+    destruct (if e_kind e =? 0 then k_pending (kc c) else None) as [cm|]; [apply Grown_apply_commit; exact H|].
+    apply Held_Grown.
+    destruct (dget (e_id e) (dedup c)) as [d|]; [|exact H].
+    destruct ((d_state d =? PS_CREATED) || (d_state d =? PS_RETRY)).
+    + destruct (d_msg d) as [m|]; [|exact H]. destruct (dget m (msgs c)); exact H.
+    + destruct (d_state d =? PS_COMMIT); exact H.
+  - destruct (e_kind e =? 1).
+    + apply Held_Grown. unfold app_here. destruct (negb _ || existsb (N.eqb (e_msg e)) (k_seen (kc c))); [exact H|].
+      cbn [fst]. apply Held_core; [|exact H]. rewrite upd_last_states. exact (proj1 H).
+    + destruct (e_kind e =? 2).
+      * apply Held_Grown. unfold leave_here. destruct (existsb (N.eqb (100000 + e_id e)) (k_seen (kc c))); [exact H|].
+        destruct (is_admin c && _); [exact H|]. cbn [fst]. destruct (is_admin c); exact H.
+      * unfold commit_here. destruct (negb (forallb _ (e_refs e))); [apply Held_Grown; exact H|].
+        destruct (negb (e_auth e)); [apply Held_Grown; exact H|apply Grown_apply_commit; exact H].
+Qed.
+
+Lemma Grown_process L fuel : forall c e, Held L c -> Grown L (fst (process fuel c e)).
+Proof.
+  induction fuel as [|f IH]; intros c e H; rewrite process_unfold.
+  all: destruct (blockedb c e); [apply Held_Grown; exact H|].
+  all: destruct ((e_kind e =? 3) && (e_bad e <? 2)); [apply Held_Grown; exact H|].
+  all: destruct ((e_kind e =? 3) && (e_bad e =? 2)); [apply Held_Grown; exact H|].
+  all: destruct (negb (k_active (kc c))); [apply Held_Grown; exact H|].
+  all: cbv zeta; pose proof (Held_ens L c H) as H1.
+  all: destruct ((e_kind e =? 3) || negb (outer_opens (kc (ens c)) (e_state e))); [apply Held_Grown; exact H1|].
+  all: destruct (wrong_epoch (kc (ens c)) e); [|apply Grown_here; exact H1].
+  all: destruct (is_better (ens c) (e_epoch e) (e_ts e) (e_key e)); [|apply Held_Grown; apply Held_late; exact H1].
+  all: destruct (find_snap (e_epoch e) (queue (ens c))) as [s|] eqn:Es; [|apply Held_Grown; exact H1].
+  - apply Held_Grown; exact H1.
+  - apply IH. apply Held_rollback; [exact H1|]. apply find_snap_In in Es. apply Es.
+Qed.
+
+Lemma Held_restart L c : Held L c -> Held L (restart c).
+Proof.
+  intros [H1 H2]. split; [exact H1|]. rewrite restart_queue. intros s Hs.
+  apply in_map_iff in Hs. destruct Hs as (s0 & <- & Hs0). exact (H2 s0 Hs0).
+Qed.
+
+Lemma Grown_estep L c o : Held L c -> Grown L (estep c o).
+Proof.
+  intros H. destruct o as [e|e| | |e|e k|e|]; cbn [estep].
+  - apply Grown_process. exact H.
+  - apply Held_Grown. unfold committed. apply (Held_ens L c) in H. exact H.
+  - unfold merge_pending. destruct (k_pending (kc c)) as [cm|]; [|apply Held_Grown; exact H].
+    cbn [fst]. apply Held_advance; [reflexivity|exact H].
+  - apply Held_Grown. exact H.
+  - apply Held_Grown. unfold sent. apply (Held_ens L c) in H.
+    apply Held_core; [|exact H]. rewrite upd_last_states. exact (proj1 H).
+  - apply Held_Grown. unfold sent_as. apply (Held_ens L c) in H.
+    apply Held_core; [|exact H]. rewrite upd_last_states. exact (proj1 H).
+  - apply Held_Grown. unfold leave_created. apply (Held_ens L c) in H. exact H.
+  - apply Held_Grown. apply Held_restart. exact H.
+Qed.
+
+Lemma visited_head c ops : In (k_cur (kc c)) (visited c ops).
+Proof. destruct ops; left; reflexivity. Qed.
+
+Lemma Held_erun ops : forall c L, Held L c -> Held (L ++ visited c ops) (erun c ops).
+Proof.
+  induction ops as [|o ops IH]; intros c L H.
+  - cbn [erun fold_left]. revert H. apply Held_mono. apply incl_appl. apply incl_refl.
+  - unfold erun. cbn [fold_left visited]. fold (erun (estep c o) ops).
+    pose proof (IH (estep c o) _ (Grown_estep L c o H)) as H'. revert H'. apply Held_mono.
+    apply incl_app.
+    + apply incl_cons.
+      * apply in_or_app. right. right. apply visited_head.
+      * apply incl_appl. apply incl_refl.
+    + apply incl_appr. apply incl_tl. apply incl_refl.
+Qed.
+
+Lemma Held_reachable i a r ops : Held (visited (init_client i a r) ops) (erun (init_client i a r) ops).
+Proof.
+  assert (Held [k_cur (kc (init_client i a r))] (init_client i a r)) as H0.
+  { split; [|intros s []]. intros x Hx. exact Hx. }
+  pose proof (Held_erun ops _ _ H0) as H. revert H. apply Held_mono.
+  apply incl_app; [|apply incl_refl]. apply incl_cons; [apply visited_head|apply incl_nil_l].
+Qed.
+
+Lemma secrets_only_of_visited_states : forall i a r ops st,
+  let c := erun (init_client i a r) ops in
+  (In st (held_states (kc c)) \/ exists s, In s (queue c) /\ In st (held_states (sn_core s))) ->
+  In st (visited (init_client i a r) ops).
+Proof.
+  intros i a r ops st c H. destruct (Held_reachable i a r ops) as [H1 H2]. fold c in H1, H2.
+  destruct H as [H|(s & Hs & H)].
+  - apply H1. right. exact H.
+  - apply (H2 s Hs). right. exact H.
+Qed.
+
+(* ---- reading needs the exporter secret of the sender's state *)
+Lemma outer_opens_held k st : outer_opens k st = true -> In st (map snd (k_secrets k)).
+Proof.
+  unfold outer_opens. intros H. apply orb_true_iff in H. destruct H as [H|H].
+  - destruct (dget (k_epoch k) (k_secrets k)) as [s|] eqn:E; [|discriminate H].
+    apply dget_In in E. apply in_map_iff. exists (k_epoch k, s). split; [cbn [snd]; lia|exact E].
+  - apply existsb_exists in H. destruct H as (p & Hp & Hc). apply in_map_iff. exists p. split; [lia|exact Hp].
+Qed.
+
+Lemma app_opens f c e : snd (process f c e) = RApp -> outer_opens (ensure_secret (kc c)) (e_state e) = true.
+Proof.
+  rewrite process_unfold.
+  destruct (blockedb c e); [unfold blocked_rk; destruct (_ && _); discriminate|].
+  destruct ((e_kind e =? 3) && (e_bad e <? 2)); [discriminate|].
+  destruct ((e_kind e =? 3) && (e_bad e =? 2)); [discriminate|].
+  destruct (negb (k_active (kc c))); [discriminate|].
+  cbv zeta. change (kc (ens c)) with (ensure_secret (kc c)).
+  destruct (outer_opens (ensure_secret (kc c)) (e_state e)); [reflexivity|].
+  rewrite orb_true_r. discriminate.
+Qed.
+
+Lemma reads_known c e : reads c e -> In (e_state e) (core_states (kc c)).
+Proof.
+  intros [H _]. apply app_opens in H. apply outer_opens_held in H.
+  apply es_states. right. apply in_or_app. left. exact H.
+Qed.
+
+Lemma plaintext_only_for_visited : forall i a r ops e,
+  reads (erun (init_client i a r) ops) e -> In (e_state e) (visited (init_client i a r) ops).
+Proof.
+  intros i a r ops e H. apply reads_known in H. exact (proj1 (Held_reachable i a r ops) _ H).
+Qed.
+
+Lemma evicted_is_inert : forall c e, k_active (kc c) = false ->
+  snd (deliver c e) <> RApp /\ proj (fst (deliver c e)) = proj c.
+Proof.
+  intros c e Ha. unfold deliver. rewrite process_unfold.
+  destruct (blockedb c e); [split; [unfold blocked_rk; destruct (_ && _); discriminate|reflexivity]|].
+  destruct ((e_kind e =? 3) && (e_bad e <? 2)); [split; [discriminate|reflexivity]|].
+  destruct ((e_kind e =? 3) && (e_bad e =? 2)); [split; [discriminate|reflexivity]|].
+  rewrite Ha. cbn [negb]. split; [discriminate|reflexivity].
+Qed.
+
+Lemma no_secrets_no_plaintext : forall c e,
+  k_secrets (kc c) = [] -> k_past (kc c) = [] -> e_state e <> k_cur (kc c) -> ~ reads c e.
+Proof.
+  intros c e Hs Hp Hne H. apply reads_known in H. unfold core_states, held_states in H. rewrite Hs, Hp in H.
+  destruct H as [H|[]]. apply Hne. symmetry. exact H.
+Qed.
